@@ -107,9 +107,17 @@ def case_strategy():
                         "inc_forms": [draw(st.sampled_from(["abs", "rel", "rel"])) for _ in cmd["dirs"]],
                         "inc_styles": [draw(st.integers(0, 3)) for _ in cmd["dirs"]],
                         "as_command": draw(st.booleans()),
+                        "empty_I": draw(st.integers(0, 9)) == 0,
                     }
                 )
-        bad = {p: draw(st.lists(st.sampled_from(["missing", "object", "link", "empty-command", "empty-arguments", "text", "missing-there", "missing-there-out"]), max_size=3)) for p in plats}
+        # a forced include of the per-build-directory header: looked up in the entry's directory first
+        for pname, cmds in plats.items():
+            for cmd, sp in zip(cmds, entries[pname]):
+                d = "cb" if sp["dir_form"] == "absent" else sp["directory"]
+                cmd["cwd"] = d
+                if d + "/cfg.h" in present and draw(st.integers(0, 2)) == 0:
+                    cmd["forced"] = ["cfg.h"]
+        bad = {p: draw(st.lists(st.sampled_from(["missing", "object", "link", "empty-command", "empty-arguments", "text", "missing-there", "missing-there-out", "directory"]), max_size=3)) for p in plats}
         return {"tree": tree, "platforms": plats, "entries": entries, "bad": bad, "cbroot": "cb", "plain": draw(st.booleans())}
 
     return case()
@@ -138,6 +146,10 @@ def build_entry(top, root, cmd, sp):
     flags = ["-D" + d for d in cmd["defines"]]
     for i, v in enumerate(incs):
         flags += (["-I" + v] if i % 2 else ["-I", v])
+    for f in cmd.get("forced", []):
+        flags += ["-include", f]
+    if sp.get("empty_I"):
+        flags += ["-I", ""]  # an empty directory name is ignored
     argv = ["gcc", *flags, "-c", fsp]
     e = {"file": fsp}
     if directory is not None:
@@ -159,6 +171,10 @@ def bad_entry(kind, top, root, i):
         return {"directory": "build", "file": "src/never.c", "arguments": ["gcc", "-DNEVER", "-c", "src/never.c"]}, "never.c"
     if kind == "missing-there-out":
         return {"directory": "../outbuild", "file": "src/never.c", "command": "gcc -c src/never.c"}, "never.c"
+    if kind == "directory":
+        # a directory with a source-like name is not a source file
+        os.makedirs(os.path.join(root, "gendir.c"), exist_ok=True)
+        return {"directory": root, "file": "gendir.c", "arguments": ["gcc", "-c", "gendir.c"]}, "gendir.c"
     if kind == "object":
         return {"directory": root, "file": "build/main.o", "arguments": ["gcc", "-o", "a.out", "build/main.o"]}, "main.o"
     if kind == "link":
